@@ -207,6 +207,20 @@ def gen(rng, tier):
     # ---- (e) loop-back: a sample of the streams above is also sent to a real server (HttpServerBuilder::spawn) whose
     #      handler logs what it is handed; the log must be what the messages read in memory imply
     pool = [c for c in cases if len(c) < 6000]
+    # ---- (b2) pipelines longer than the 8 KiB connection buffer: 8 messages sized so that one read
+    #      fills the buffer to its end and stops inside the head of a later message (the buffer must
+    #      be compacted between messages); cut positions 1..40 bytes into that head
+    def sized(method, path, total):
+        ln = total - len(render(method, path, [(b"Content-Length", b"0000")], b""))
+        return render(method, path, [(b"Content-Length", b"%04d" % ln)], bytes(97 + (i % 7) for i in range(ln)))
+    for k in range(12 if tier == "quick" else 300):
+        cut = rng.randint(1, 40)                 # bytes of the last head that fit at the buffer end
+        sizes = [1170] * 6 + [8192 - cut - 6 * 1170]
+        parts = [sized(rng.choice([b"POST", b"PUT"]), b"/p%d" % j, sz) for j, sz in enumerate(sizes)]
+        parts.append(sized(b"POST", b"/last", 600))
+        stream = b"".join(parts) + FOLLOW[0]
+        for sched in ([], [8192], [4096]):
+            cases.append(case(stream, sched))
     nloop = 400 if tier == "quick" else 6000
     loops = ["loop" + c[3:] for c in pool[:120]] + ["loop" + rng.choice(pool)[3:] for _ in range(nloop)]
     return cases + loops
